@@ -271,6 +271,12 @@ func checkPass(run *kit.Run, c cfg, oc optCache, suffix string) {
 				switch k.name {
 				case "noroute":
 					got = serve("GET", "/nope")
+					// request targets that do not start with a slash end in the no-route handler too, with the same chain
+					for _, target := range []string{"nope", "*", "nope/x"} {
+						if g2 := serve("GET", target); !same(g2, expected(c, k.scope, nil)) {
+							fail("noroute handler for request target "+target, g2, expected(c, k.scope, nil))
+						}
+					}
 				case "nomethod":
 					got = serve("PUT", pth(0))
 				case "redirect":
